@@ -401,7 +401,7 @@ func attributePack(toks []int, vals []lv.V, clause string) (string, []lv.V) {
 	return joinToks(toks), vals
 }
 
-func outcomeOf(fails []fail, sig string, nontrivial bool, key func(clause string) string, ctx string) core.Outcome {
+func outcomeOf(fails []fail, sig string, nontrivial bool, key func(clause string) string, ctx func() string) core.Outcome {
 	o := core.Outcome{Sig: core.Hash64(sig), NonTrivial: nontrivial}
 	seen := map[string]bool{}
 	for _, f := range fails {
@@ -409,7 +409,7 @@ func outcomeOf(fails []fail, sig string, nontrivial bool, key func(clause string
 			continue
 		}
 		seen[f.clause] = true
-		v := &core.Violation{Key: key(f.clause), Detail: ctx + "\n" + f.detail}
+		v := &core.Violation{Key: key(f.clause), Detail: ctx() + "\n" + f.detail}
 		if o.Viol == nil {
 			o.Viol = v
 		} else {
@@ -766,7 +766,7 @@ func packFamilies(tier string) []*core.Family {
 			return outcomeOf(fails, sig, nt, func(clause string) string {
 				kf, kv := attributePack(toks, vals, clause)
 				return packKey(kf, kv, clause)
-			}, fmt.Sprintf("string.pack(%q, %s)", fs, lvCanons(vals)))
+			}, func() string { return fmt.Sprintf("string.pack(%q, %s)", fs, lvCanons(vals)) })
 		},
 		Show: func(i uint64) string {
 			toks, vals := packCase(i)
@@ -820,7 +820,7 @@ func packFamilies(tier string) []*core.Family {
 					}
 				}
 				return fmt.Sprintf("packsize fmt=%q clause=%s", kf, clause)
-			}, fmt.Sprintf("string.packsize(%q)", fs))
+			}, func() string { return fmt.Sprintf("string.packsize(%q)", fs) })
 		},
 		Show: func(i uint64) string { return fmt.Sprintf("string.packsize(%q)", joinToks(space.tokens(int(i)))) }}
 
@@ -867,7 +867,9 @@ func packFamilies(tier string) []*core.Family {
 			fails, sig, nt := unpackCheck(fs, data, init, has, false)
 			return outcomeOf(fails, sig, nt, func(clause string) string {
 				return attributeUnpack(toks, unpackCase{fs, data, init, has}, clause).key(clause)
-			}, fmt.Sprintf("string.unpack(%q, <%s>, %d) hasinit=%v", fs, hex.EncodeToString([]byte(data)), init, has))
+			}, func() string {
+				return fmt.Sprintf("string.unpack(%q, <%s>, %d) hasinit=%v", fs, hex.EncodeToString([]byte(data)), init, has)
+			})
 		},
 		Show: func(i uint64) string {
 			toks, data, init, has := initCase(i)
@@ -895,7 +897,7 @@ func packFamilies(tier string) []*core.Family {
 			fails, sig, nt := unpackCheck(fs, data, 0, false, false)
 			return outcomeOf(fails, sig, nt, func(clause string) string {
 				return attributeUnpack(toks, unpackCase{fs: fs, data: data}, clause).key(clause)
-			}, fmt.Sprintf("string.unpack(%q, <%s>)", fs, hex.EncodeToString([]byte(data))))
+			}, func() string { return fmt.Sprintf("string.unpack(%q, <%s>)", fs, hex.EncodeToString([]byte(data))) })
 		},
 		Show: func(i uint64) string {
 			toks, data := truncCase(i)
@@ -920,7 +922,9 @@ func packFamilies(tier string) []*core.Family {
 			fails, sig, nt := unpackCheck(fs, data, init, has, false)
 			return outcomeOf(fails, sig, nt, func(clause string) string {
 				return attributeUnpack(toks, unpackCase{fs, data, init, has}, clause).key(clause)
-			}, fmt.Sprintf("string.unpack(%q, <%s>, %d) hasinit=%v", fs, hex.EncodeToString([]byte(data)), init, has))
+			}, func() string {
+				return fmt.Sprintf("string.unpack(%q, <%s>, %d) hasinit=%v", fs, hex.EncodeToString([]byte(data)), init, has)
+			})
 		},
 		Show: func(i uint64) string {
 			toks, data, init, has := garbCase(i)
@@ -935,7 +939,7 @@ func packFamilies(tier string) []*core.Family {
 			fails, sig, nt := unpackCheck(c.fs, c.data, 0, false, true)
 			return outcomeOf(fails, sig, nt, func(clause string) string {
 				return unpackKey(c.fs, c.data, 0, false, clause)
-			}, fmt.Sprintf("string.unpack(%q, <%s>)", c.fs, hex.EncodeToString([]byte(c.data))))
+			}, func() string { return fmt.Sprintf("string.unpack(%q, <%s>)", c.fs, hex.EncodeToString([]byte(c.data))) })
 		},
 		Show: func(i uint64) string {
 			return fmt.Sprintf("string.unpack(%q, <%s>)", hugeCases[i].fs, hex.EncodeToString([]byte(hugeCases[i].data)))
@@ -958,12 +962,17 @@ func packFamilies(tier string) []*core.Family {
 			fails, sig, nt := packCheck(fs, vals)
 			return outcomeOf(fails, sig, nt, func(clause string) string {
 				return fmt.Sprintf("pack-args fmt=%q arg=%s clause=%s", fs, k.name, clause)
-			}, fmt.Sprintf("string.pack(%q, %s)", fs, lvCanons(vals)))
+			}, func() string { return fmt.Sprintf("string.pack(%q, %s)", fs, lvCanons(vals)) })
 		},
 		Show: func(i uint64) string {
 			t := valueToks[i/nk]
 			return fmt.Sprintf("string.pack(%q, %s)", packAlphabet[t], lvCanons(argKinds[i%nk].vals(tokInfos[t].canon)))
 		}}
 
+	if tier == "thorough" {
+		// safety caps (a loaded machine): hitting one makes the run report
+		// exhaustive:false, never a failure
+		famPack.BudgetSeconds, famInit.BudgetSeconds, famGarb.BudgetSeconds, famTrunc.BudgetSeconds = 1500, 900, 900, 400
+	}
 	return []*core.Family{famArgs, famSize, famPack, famHuge, famTrunc, famInit, famGarb}
 }
